@@ -7,6 +7,8 @@ package main
 // (returned offset <= len(buffer)) and preconditions established by every caller of an unexported function.
 
 import (
+	"os"
+	"go/constant"
 	"fmt"
 	"go/token"
 	"go/types"
@@ -59,18 +61,59 @@ type linEnv struct {
 	// subst: while set, a value found here is linearised as its replacement (one level; used to push a goal
 	// over loop-header phis through one incoming edge)
 	subst map[ssa.Value]ssa.Value
+	cells map[string]string // memory-cell epoch key -> atom name
+	// condDefs: results of unsigned arithmetic. The atom equals its linear form only when the form is shown to stay
+	// inside the type's range (no wrap-around) from the facts at hand; until then it is an opaque value of its type.
+	condDefs []condDef
+	maxOf    map[string]int64 // atoms of narrow unsigned type: their largest value
+	resolving bool
+}
+
+type condDef struct {
+	name string
+	form *linExpr
+	max  int64 // 0: only the lower bound is checked (64-bit and 32-bit additions are taken not to overflow, as for int)
 }
 
 func newLinEnv() *linEnv { return &linEnv{names: map[ssa.Value]string{}, nonneg: map[string]bool{}} }
 
-func (e *linEnv) atom(v ssa.Value) *linExpr {
-	n, ok := e.names[v]
-	if !ok {
-		n = fmt.Sprintf("%s~%d", exprKeyPretty(v), len(e.names))
-		e.names[v] = n
+// nameOf gives the atom name of a value. Two loads of the same memory cell with no store to it in between
+// (same epoch, see cellEpoch) share one name: go/ssa keeps struct-typed locals such as the parser's current token in
+// memory, and every l.token is a load of its own.
+func (e *linEnv) nameOf(v ssa.Value) string {
+	if n, ok := e.names[v]; ok {
+		return n
 	}
+	if key, ok := cellEpoch(v); ok {
+		if n, seen := e.cells[key]; seen {
+			e.names[v] = n
+			return n
+		}
+		n := fmt.Sprintf("%s~%d", exprKeyPretty(v), len(e.names))
+		e.names[v] = n
+		if e.cells == nil {
+			e.cells = map[string]string{}
+		}
+		e.cells[key] = n
+		return n
+	}
+	n := fmt.Sprintf("%s~%d", exprKeyPretty(v), len(e.names))
+	e.names[v] = n
+	return n
+}
+
+func (e *linEnv) atom(v ssa.Value) *linExpr {
+	n := e.nameOf(v)
 	if isNonNeg(v) {
 		e.nonneg[n] = true
+	}
+	if w, signed := intWidth(v.Type()); !signed && w <= 16 {
+		if _, isInt := v.Type().Underlying().(*types.Basic); isInt {
+			if e.maxOf == nil {
+				e.maxOf = map[string]int64{}
+			}
+			e.maxOf[n] = int64(1)<<uint(w) - 1
+		}
 	}
 	r := newLin()
 	r.t[n] = 1
@@ -132,9 +175,22 @@ func (e *linEnv) lenOf(buf ssa.Value) *linExpr {
 }
 
 func (e *linEnv) lenAtom(buf ssa.Value) *linExpr {
-	n, ok := e.names[buf]
-	if !ok {
-		n = fmt.Sprintf("%s~%d", exprKeyPretty(buf), len(e.names))
+	if e.subst != nil {
+		if r, ok := e.subst[buf]; ok {
+			saved := e.subst
+			e.subst = nil
+			res := e.lenOfAny(r)
+			e.subst = saved
+			return res
+		}
+	}
+	if k, ok := buf.(*ssa.Const); ok && k.Value != nil && k.Value.Kind() == constant.String {
+		r := newLin()
+		r.c = int64(len(constant.StringVal(k.Value)))
+		return r
+	}
+	n := e.nameOf(buf)
+	if false {
 		e.names[buf] = n
 	}
 	k := "len(" + n + ")"
@@ -168,18 +224,53 @@ func (e *linEnv) lin(v ssa.Value) *linExpr {
 			return r
 		}
 	case *ssa.BinOp:
+		if os.Getenv("DEBUGUNS") != "" {
+			if bt, ok := t.Type().Underlying().(*types.Basic); ok && bt.Info()&types.IsUnsigned != 0 && (t.Op == token.ADD || t.Op == token.SUB || t.Op == token.MUL) {
+				fmt.Fprintf(os.Stderr, "UNS %s %s %s in %s\n", bt.Name(), t.Op, exprKeyPretty(t), t.Parent().Name())
+			}
+		}
+		var form *linExpr
 		switch t.Op {
 		case token.ADD:
-			return e.lin(t.X).add(e.lin(t.Y), 1)
+			form = e.lin(t.X).add(e.lin(t.Y), 1)
 		case token.SUB:
-			return e.lin(t.X).add(e.lin(t.Y), -1)
+			form = e.lin(t.X).add(e.lin(t.Y), -1)
 		case token.MUL:
 			if k, ok := constIntOf(t.Y); ok {
-				return newLin().add(e.lin(t.X), k)
+				form = newLin().add(e.lin(t.X), k)
+			} else if k, ok := constIntOf(t.X); ok {
+				form = newLin().add(e.lin(t.Y), k)
 			}
-			if k, ok := constIntOf(t.X); ok {
-				return newLin().add(e.lin(t.Y), k)
+		}
+		if form != nil {
+			w, signed := intWidth(t.Type())
+			if signed {
+				return form
 			}
+			// unsigned: subtraction may wrap below zero at any width, addition and multiplication above the type's
+			// range at widths of 8 and 16 bits
+			if t.Op != token.SUB && w > 16 {
+				return form
+			}
+			a := e.atom(v)
+			var name string
+			for n := range a.t {
+				name = n
+			}
+			known := false
+			for _, d := range e.condDefs {
+				if d.name == name {
+					known = true
+				}
+			}
+			if !known {
+				d := condDef{name: name, form: form}
+				if w <= 16 {
+					d.max = int64(1)<<uint(w) - 1
+				}
+				e.condDefs = append(e.condDefs, d)
+			}
+			return a
 		}
 	case *ssa.Convert:
 		// integer -> integer conversions that cannot lose value: widening, or unsigned -> wider signed
@@ -198,7 +289,20 @@ func (e *linEnv) lin(v ssa.Value) *linExpr {
 			if _, isSlice := t.Call.Args[0].Type().Underlying().(*types.Slice); isSlice {
 				return e.lenOf(t.Call.Args[0])
 			}
-			return e.lenAtom(t.Call.Args[0])
+			return e.lenOfAny(t.Call.Args[0])
+		}
+	case *ssa.UnOp:
+		// a load in a memory version started by a store to the same cell reads the stored value
+		if _, named := e.names[v]; !named {
+			if bt, ok := t.Type().Underlying().(*types.Basic); ok && bt.Info()&types.IsInteger != 0 {
+				if key, ok := cellEpoch(t); ok {
+					if _, base, path, _ := cellOf(t); base != nil {
+						if val, ok := forwardedStore(key, base, path); ok {
+							return e.lin(val)
+						}
+					}
+				}
+			}
 		}
 	}
 	return e.atom(v)
@@ -212,9 +316,36 @@ type linFact struct {
 }
 
 func (e *linEnv) factsFrom(f Fact) []linFact {
+	if extra := e.lexContractFact(f); len(extra) > 0 {
+		return append(extra, e.factsFrom0(f)...)
+	}
+	return e.factsFrom0(f)
+}
+
+func (e *linEnv) factsFrom0(f Fact) []linFact {
 	b, ok := f.Atom.(*ssa.BinOp)
 	if !ok {
 		return nil
+	}
+	if bt, ok := b.X.Type().Underlying().(*types.Basic); ok && bt.Info()&types.IsString != 0 {
+		// s == "" / s != "": a statement about len(s)
+		var sv ssa.Value
+		if k, isK := b.Y.(*ssa.Const); isK && k.Value != nil && k.Value.Kind() == constant.String && constant.StringVal(k.Value) == "" {
+			sv = b.X
+		} else if k, isK := b.X.(*ssa.Const); isK && k.Value != nil && k.Value.Kind() == constant.String && constant.StringVal(k.Value) == "" {
+			sv = b.Y
+		}
+		if sv == nil || (b.Op != token.EQL && b.Op != token.NEQ) {
+			return nil
+		}
+		empty := (b.Op == token.EQL) == f.Holds
+		l := e.lenOfAny(sv)
+		if empty {
+			return []linFact{{lf: l, why: "s == \"\""}} // len(s) <= 0
+		}
+		r := newLin().add(l, -1)
+		r.c++ // 1 - len(s) <= 0
+		return []linFact{{lf: r, why: "s != \"\""}}
 	}
 	if bt, ok := b.X.Type().Underlying().(*types.Basic); !ok || bt.Info()&types.IsInteger == 0 {
 		return nil
@@ -246,6 +377,69 @@ func (e *linEnv) factsFrom(f Fact) []linFact {
 // entailsLin: do the facts (each lf <= 0) together with non-negativity of the env's nonneg atoms imply goal <= 0 ?
 // Bounded search: goal = sum of at most 4 facts (coefficient 1 or 2) + a non-positive combination of nonneg atoms + a constant <= 0.
 func (e *linEnv) entailsLin(facts []linFact, goal *linExpr) bool {
+	if e.resolving || (len(e.condDefs) == 0 && len(e.maxOf) == 0) {
+		return e.entailsLin0(facts, goal)
+	}
+	// type ranges, then the unsigned results whose linear form provably does not wrap (inner results first)
+	facts = append([]linFact{}, facts...)
+	var ranged []string
+	for n := range e.maxOf {
+		ranged = append(ranged, n)
+	}
+	sort.Strings(ranged)
+	for _, n := range ranged {
+		lf := newLin()
+		lf.t[n] = 1
+		lf.c = -e.maxOf[n]
+		facts = append(facts, linFact{lf: lf, why: "range of the type"})
+	}
+	e.resolving = true
+	for _, d := range e.condDefs {
+		lower := newLin().add(d.form, -1)
+		if !e.entailsLin0(facts, lower) {
+			continue
+		}
+		if d.max > 0 {
+			upper := newLin().add(d.form, 1)
+			upper.c -= d.max
+			if !e.entailsLin0(facts, upper) {
+				continue
+			}
+		}
+		at := newLin()
+		at.t[d.name] = 1
+		facts = append(facts, linFact{lf: at.add(d.form, -1), why: "no wrap-around"}, linFact{lf: newLin().add(d.form, 1).add(at, -1), why: "no wrap-around"})
+	}
+	e.resolving = false
+	return e.entailsLin0(facts, goal)
+}
+
+// contradictory: two facts whose sum says that a positive constant plus non-negative terms is <= 0.
+func (e *linEnv) contradictory(facts []linFact) bool {
+	for i := range facts {
+		for j := i; j < len(facts); j++ {
+			sum := facts[i].lf
+			if j != i {
+				sum = sum.add(facts[j].lf, 1)
+			}
+			if sum.c <= 0 {
+				continue
+			}
+			bad := false
+			for a, v := range sum.t {
+				if v < 0 || !e.nonneg[a] {
+					bad = true
+				}
+			}
+			if !bad {
+				return true
+			}
+		}
+	}
+	return false
+}
+
+func (e *linEnv) entailsLin0(facts []linFact, goal *linExpr) bool {
 	residualOK := func(r *linExpr) bool {
 		// r = goal - sum(facts); need r <= 0 given atoms >= 0: all coefficients <= 0 on nonneg atoms, none on others, const <= 0
 		if r.c > 0 {
@@ -261,28 +455,77 @@ func (e *linEnv) entailsLin(facts []linFact, goal *linExpr) bool {
 	if residualOK(goal) {
 		return true
 	}
-	n := len(facts)
-	if n > 14 {
-		n = 14
+	// keep the facts that can matter: those connected to the goal through shared atoms
+	if len(facts) > 14 {
+		rel := map[string]bool{}
+		for a := range goal.t {
+			rel[a] = true
+		}
+		var picked []linFact
+		used := make([]bool, len(facts))
+		for round := 0; round < 3; round++ {
+			for i, f := range facts {
+				if used[i] {
+					continue
+				}
+				hit := false
+				for a := range f.lf.t {
+					if rel[a] {
+						hit = true
+					}
+				}
+				if hit {
+					used[i] = true
+					picked = append(picked, f)
+				}
+			}
+			for _, f := range picked {
+				for a := range f.lf.t {
+					rel[a] = true
+				}
+			}
+		}
+		facts = picked
 	}
+	n := len(facts)
+	if n > 18 {
+		n = 18
+	}
+	maxDepth := 4
+	visited := map[string]int{}
+	budget := 20000
 	var rec func(start int, r *linExpr, depth int) bool
 	rec = func(start int, r *linExpr, depth int) bool {
 		if residualOK(r) {
 			return true
 		}
-		if depth == 4 {
+		if depth == maxDepth || budget <= 0 {
 			return false
 		}
-		for i := start; i < n; i++ {
+		budget--
+		key := r.String()
+		if d, seen := visited[key]; seen && d <= depth {
+			return false
+		}
+		visited[key] = depth
+		for i := 0; i < n; i++ {
 			// useful only if the fact shares an atom with the residual's positive / non-nonneg part
 			useful := false
+			var scale int64
 			for a, v := range facts[i].lf.t {
 				if rv, ok := r.t[a]; ok && (rv > 0 && v > 0 || rv < 0 && v < 0) {
 					useful = true
+					if k := rv / v; k >= 2 && k*v == rv && (scale == 0 || k < scale) {
+						scale = k
+					}
 				}
 			}
 			if !useful {
 				continue
+			}
+			// the multiple of the fact that cancels a shared atom outright (4*b against b <= 31)
+			if scale >= 2 && rec(i, r.add(facts[i].lf, -scale), depth+1) {
+				return true
 			}
 			if rec(i, r.add(facts[i].lf, -1), depth+1) {
 				return true
@@ -290,7 +533,14 @@ func (e *linEnv) entailsLin(facts []linFact, goal *linExpr) bool {
 		}
 		return false
 	}
-	return rec(0, goal, 0)
+	if rec(0, goal, 0) {
+		return true
+	}
+	// rational combinations with denominator 2: prove 2*goal (twice as many facts may be needed)
+	maxDepth = 7
+	visited = map[string]int{}
+	budget = 40000
+	return rec(0, newLin().add(goal, 2), 0)
 }
 
 func isNonNeg(v ssa.Value) bool {
@@ -298,6 +548,8 @@ func isNonNeg(v ssa.Value) bool {
 		return true
 	}
 	switch t := v.(type) {
+	case *ssa.Phi:
+		return phiNonNeg(t) || coNonNeg(t, map[ssa.Value]bool{})
 	case *ssa.Const:
 		k, ok := constIntOf(t)
 		return ok && k >= 0
@@ -309,6 +561,10 @@ func isNonNeg(v ssa.Value) bool {
 	case *ssa.Call:
 		n := calleeNameSSA(&t.Call)
 		return n == "builtin.len" || n == "builtin.cap" || n == "builtin.copy"
+	case *ssa.UnOp:
+		if t.Op == token.MUL && fieldNonNeg(t) {
+			return true
+		}
 	case *ssa.BinOp:
 		if t.Op == token.ADD || t.Op == token.MUL {
 			return isNonNeg(t.X) && isNonNeg(t.Y)
@@ -321,6 +577,76 @@ func isNonNeg(v ssa.Value) bool {
 		return true
 	}
 	return false
+}
+
+// ---- field invariants ----
+
+// fieldNonNeg: the load reads an unexported integer field of a module struct that only ever receives non-negative
+// values: every store to the field anywhere in the module stores a value that is shown non-negative at that point,
+// assuming (induction over the execution) that every earlier load of the field was. Values of the struct type are
+// otherwise only zero-initialised or copied whole, which preserves the invariant; the field's address is never
+// taken. (Overflow of int is outside the model, as everywhere in this prover.)
+var fieldInv = map[*types.Var]int{} // 1 holds (or assumed while being shown), 2 does not
+var fieldInvProver *boundsProver
+
+func fieldNonNeg(ld *ssa.UnOp) bool {
+	fa, ok := ld.X.(*ssa.FieldAddr)
+	if !ok {
+		return false
+	}
+	v := fieldVarOf(fa)
+	if v == nil || v.Exported() {
+		return false
+	}
+	if bt, ok := v.Type().Underlying().(*types.Basic); !ok || bt.Info()&types.IsInteger == 0 {
+		return false
+	}
+	switch fieldInv[v] {
+	case 1:
+		return true
+	case 2:
+		return false
+	}
+	bp, m := fieldInvProver, theModOracle
+	if bp == nil || m == nil || m.addrTaken[v] {
+		fieldInv[v] = 2
+		return false
+	}
+	fieldInv[v] = 1
+	holds := true
+	for _, f := range m.fns {
+		if !holds {
+			break
+		}
+		for _, b := range f.Blocks {
+			for _, in := range b.Instrs {
+				st, isSt := in.(*ssa.Store)
+				if !isSt {
+					continue
+				}
+				sfa, isFA := st.Addr.(*ssa.FieldAddr)
+				if !isFA || fieldVarOf(sfa) != v {
+					continue
+				}
+				if isNonNeg(st.Val) {
+					continue
+				}
+				env := newLinEnv()
+				saved := bp.goalValues
+				bp.goalValues = []ssa.Value{st.Val}
+				facts := bp.factsAtPoint(f, b, nil, env)
+				bp.goalValues = saved
+				goal := newLin().add(env.lin(st.Val), -1)
+				if !env.entailsLin(facts, goal) {
+					holds = false
+				}
+			}
+		}
+	}
+	if !holds {
+		fieldInv[v] = 2
+	}
+	return holds
 }
 
 // ---- sites ----
@@ -386,6 +712,9 @@ func (s *boundSite) describe() string {
 	if s.Upper != nil {
 		up = exprKeyPretty(s.Upper)
 	}
+	if s.Kind == "index-low" {
+		return fmt.Sprintf("index-low 0 <= %s%+d in %s", up, s.UpperK, exprKeyPretty(s.Buf))
+	}
 	if s.Kind == "slice-order" {
 		lo := ""
 		if s.Low != nil {
@@ -399,7 +728,7 @@ func (s *boundSite) describe() string {
 // goalOf builds the linear goal (<= 0) of a site.
 func (s *boundSite) goalOf(env *linEnv) *linExpr {
 	goal := newLin()
-	if s.Kind == "slice-order" {
+	if s.Kind == "slice-order" || s.Kind == "index-low" {
 		goal.c = s.LowK - s.UpperK
 		if s.Low != nil {
 			goal = goal.add(env.lin(s.Low), 1)
@@ -509,7 +838,35 @@ func boundSites(fn *ssa.Function) []*boundSite {
 			}
 		}
 	})
-	return out
+	// lower bounds: an index or a slice bound that is not non-negative by construction (len(x)-1, i-2, ...)
+	var lows []*boundSite
+	for _, st := range out {
+		var idx ssa.Value
+		switch t := st.Instr.(type) {
+		case *ssa.IndexAddr:
+			idx = t.Index
+		case *ssa.Index:
+			idx = t.Index
+		case *ssa.Lookup:
+			idx = t.Index
+		case *ssa.Slice:
+			if st.Kind == "slice-high" && t.Low != nil {
+				idx = t.Low // lo >= 0; hi >= lo is the slice-order site
+			} else if st.Kind == "slice-low" {
+				idx = t.Low
+			} else if st.Kind == "slice-high" && t.Low == nil {
+				idx = t.High
+			}
+		}
+		// offsets handed in by the caller are taken to be non-negative; what can go below zero on hostile input is
+		// an explicit subtraction (len(x)-1, i-2, end-off ...)
+		if idx == nil || coNonNeg(idx, map[ssa.Value]bool{}) || !hasSub(idx, 0) {
+			continue
+		}
+		base, k := offsetOf(idx)
+		lows = append(lows, &boundSite{Fn: fn, Instr: st.Instr, Buf: st.Buf, Upper: base, UpperK: k, Kind: "index-low"})
+	}
+	return append(out, lows...)
 }
 
 // boundsProver carries the interprocedural facts.
@@ -520,10 +877,18 @@ type boundsProver struct {
 	callers map[*ssa.Function][]ssa.CallInstruction
 	inPre   map[*ssa.Function]bool
 	predK   map[*ssa.Function]int64
+	boolP   map[*ssa.Function]int // 0 unknown, 1 proven, 2 not proven / in progress
+	// goalValues: the values of the goal currently being proven (for facts about calls that occur only in the goal)
+	goalValues []ssa.Value
 }
 
 func newBoundsProver(c *Ctx, e *aliasEngine, scope map[*ssa.Function]bool) *boundsProver {
+	if theModOracle == nil || theModOracle.prog != c.Prog {
+		theModOracle = newModOracle(c)
+	}
+	fieldInv = map[*types.Var]int{}
 	bp := &boundsProver{c: c, e: e, post: map[*ssa.Function]map[int]int{}, callers: map[*ssa.Function][]ssa.CallInstruction{}, inPre: map[*ssa.Function]bool{}}
+	fieldInvProver = bp
 	for _, f := range e.fns {
 		allInstrs(f, func(in ssa.Instruction) {
 			ci, ok := in.(ssa.CallInstruction)
@@ -553,6 +918,8 @@ func newBoundsProver(c *Ctx, e *aliasEngine, scope map[*ssa.Function]bool) *boun
 			break
 		}
 	}
+	theLexContract = nil
+	theLexContract = buildLexContract(c, bp)
 	return bp
 }
 
@@ -683,6 +1050,176 @@ func (bp *boundsProver) factsAtPoint(f *ssa.Function, blk *ssa.BasicBlock, extra
 			}
 		}
 	}
+	// standard-library results (unconditional): an index into s is in [-1, len(s)-1]; Cut's parts are no longer than s
+	seenCalls := map[*ssa.Call]bool{}
+	var addCallFacts func(v ssa.Value, depth int)
+	addCallFacts = func(v ssa.Value, depth int) {
+		if v == nil || depth > 6 {
+			return
+		}
+		switch t := v.(type) {
+		case *ssa.BinOp:
+			addCallFacts(t.X, depth+1)
+			addCallFacts(t.Y, depth+1)
+		case *ssa.Convert:
+			addCallFacts(t.X, depth+1)
+		case *ssa.Phi:
+			for _, e := range t.Edges {
+				if _, isPhi := e.(*ssa.Phi); !isPhi {
+					addCallFacts(e, depth+1)
+				}
+			}
+		case *ssa.Extract:
+			addCallFacts(t.Tuple, depth+1)
+		case *ssa.Call:
+			if seenCalls[t] {
+				return
+			}
+			seenCalls[t] = true
+			switch calleeNameSSA(&t.Call) {
+			case "strings.IndexByte", "strings.Index", "strings.IndexRune", "strings.IndexAny", "strings.LastIndex", "strings.LastIndexByte", "bytes.IndexByte", "bytes.Index":
+				r := env.lin(t)
+				lo := newLin().add(r, -1)
+				lo.c-- // -1 - r <= 0
+				hi := r.add(env.lenOfAny(t.Call.Args[0]), -1)
+				hi.c++ // r + 1 - len(s) <= 0
+				out = append(out, linFact{lf: lo, why: "index >= -1"}, linFact{lf: hi, why: "index < len"})
+			case "(encoding/base64.Encoding).Decode", "(base64.Encoding).Decode", "(encoding/base32.Encoding).Decode", "(base32.Encoding).Decode", "encoding/hex.Decode", "hex.Decode":
+				// n, err := enc.Decode(dst, src): n octets were written into dst, so n <= len(dst)
+				for _, ref := range *t.Referrers() {
+					if ex, ok := ref.(*ssa.Extract); ok && ex.Index == 0 {
+						args := t.Call.Args
+						dst := args[len(args)-2]
+						lf := env.lin(ex).add(env.lenOf(dst), -1)
+						out = append(out, linFact{lf: lf, why: "Decode writes n <= len(dst) octets"})
+					}
+				}
+			default:
+				// (int, bool) helpers of the module with a proven bound on the first result
+				if g := t.Call.StaticCallee(); g != nil && len(t.Call.Args) >= 1 {
+					if bp.boolPost(g) {
+						for _, ref := range *t.Referrers() {
+							if ex, ok := ref.(*ssa.Extract); ok && ex.Index == 0 {
+								up := env.lin(ex).add(env.lenOfAny(t.Call.Args[0]), -1)
+								lo := newLin().add(env.lin(ex), -1)
+								lo.c--
+								out = append(out, linFact{lf: up, why: g.Name() + " returns at most len(arg)"}, linFact{lf: lo, why: g.Name() + " returns at least -1"})
+							}
+						}
+					}
+				}
+			}
+		}
+	}
+	bp.callFactRoots(f, blk, addCallFacts)
+	// successful conversions and prefix tests: for each dominating fact
+	for _, ft := range facts {
+		// err == nil of strconv.Atoi / ParseUint / ParseInt(s, ...): s is not empty
+		if b, ok := ft.Atom.(*ssa.BinOp); ok && (b.Op == token.EQL || b.Op == token.NEQ) && isNilConst(b.Y) {
+			isNil := (b.Op == token.EQL) == ft.Holds
+			if isNil {
+				for _, src := range phiLeaves(b.X) {
+					if ex, ok := src.(*ssa.Extract); ok {
+						if call, ok := ex.Tuple.(*ssa.Call); ok {
+							switch calleeNameSSA(&call.Call) {
+							case "strconv.Atoi", "strconv.ParseUint", "strconv.ParseInt", "strconv.ParseFloat":
+								lf := newLin().add(env.lenOfAny(call.Call.Args[0]), -1)
+								lf.c++
+								out = append(out, linFact{lf: lf, why: "a successfully parsed number is not the empty string"})
+							}
+						}
+					}
+				}
+			}
+		}
+		// strings.HasPrefix / HasSuffix(s, p) came out true: len(s) >= len(p)
+		if call, ok := ft.Atom.(*ssa.Call); ok && ft.Holds {
+			switch calleeNameSSA(&call.Call) {
+			case "strings.HasPrefix", "strings.HasSuffix", "bytes.HasPrefix":
+				lf := env.lenOfAny(call.Call.Args[1]).add(env.lenOfAny(call.Call.Args[0]), -1)
+				out = append(out, linFact{lf: lf, why: "HasPrefix"})
+			}
+		}
+	}
+	// lock-step counters: two phis of one loop header that both advance by a constant on every way round keep a fixed
+	// linear relation: k2*(p1 - c1) = k1*(p2 - c2)
+	{
+		var counters []*ssa.Phi
+		seenPhi := map[*ssa.Phi]bool{}
+		var findPhis func(v ssa.Value, d int)
+		findPhis = func(v ssa.Value, d int) {
+			if v == nil || d > 6 {
+				return
+			}
+			switch t := v.(type) {
+			case *ssa.Phi:
+				if !seenPhi[t] {
+					seenPhi[t] = true
+					counters = append(counters, t)
+				}
+			case *ssa.BinOp:
+				findPhis(t.X, d+1)
+				findPhis(t.Y, d+1)
+			case *ssa.Convert:
+				findPhis(t.X, d+1)
+			}
+		}
+		for _, v := range bp.goalValues {
+			findPhis(v, 0)
+		}
+		step := func(p *ssa.Phi) (init, k int64, ok bool) {
+			haveInit, haveStep := false, false
+			for _, e := range p.Edges {
+				if c, isK := constIntOf(e); isK {
+					if haveInit && c != init {
+						return 0, 0, false
+					}
+					init, haveInit = c, true
+					continue
+				}
+				b, isB := e.(*ssa.BinOp)
+				if !isB || b.Op != token.ADD || b.X != ssa.Value(p) {
+					return 0, 0, false
+				}
+				c, isK := constIntOf(b.Y)
+				if !isK || (haveStep && c != k) {
+					return 0, 0, false
+				}
+				k, haveStep = c, true
+			}
+			return init, k, haveInit && haveStep
+		}
+		for i := 0; i < len(counters); i++ {
+			for j := i + 1; j < len(counters); j++ {
+				p1, p2 := counters[i], counters[j]
+				if p1.Block() != p2.Block() {
+					continue
+				}
+				c1, k1, ok1 := step(p1)
+				c2, k2, ok2 := step(p2)
+				if !ok1 || !ok2 || k1 == 0 || k2 == 0 {
+					continue
+				}
+				// the two increments must happen on the same ways round: the defining additions are in the same block
+				sameRound := true
+				for ei := range p1.Edges {
+					_, isK1 := constIntOf(p1.Edges[ei])
+					_, isK2 := constIntOf(p2.Edges[ei])
+					if isK1 != isK2 {
+						sameRound = false
+					}
+				}
+				if !sameRound {
+					continue
+				}
+				// k2*p1 - k1*p2 - (k2*c1 - k1*c2) = 0
+				lf := newLin().add(env.lin(p1), k2).add(env.lin(p2), -k1)
+				lf.c -= k2*c1 - k1*c2
+				neg := newLin().add(lf, -1)
+				out = append(out, linFact{lf: lf, why: "lock-step counters"}, linFact{lf: neg, why: "lock-step counters"})
+			}
+		}
+	}
 	// predicate postconditions: a call p(x) that came out true, where p returns true only when len(param) >= K
 	for _, ft := range facts {
 		call, ok := ft.Atom.(*ssa.Call)
@@ -694,9 +1231,8 @@ func (bp *boundsProver) factsAtPoint(f *ssa.Function, blk *ssa.BasicBlock, extra
 			continue
 		}
 		if k := bp.predicateMinLen(g); k > 0 {
-			lf := newLin()
-			lf.c = k
-			lf = lf.add(env.lenOfAny(call.Call.Args[0]), -1)
+			lf := newLin().add(env.lenOfAny(call.Call.Args[0]), -1)
+			lf.c += k
 			out = append(out, linFact{lf: lf, why: fmt.Sprintf("%s() is true only for arguments of length >= %d", g.Name(), k)})
 		}
 	}
@@ -787,6 +1323,12 @@ func (bp *boundsProver) factsAtPoint(f *ssa.Function, blk *ssa.BasicBlock, extra
 // prove establishes a site's bound; unexported functions may rely on a precondition proven at every call site.
 func (bp *boundsProver) prove(s *boundSite) {
 	f := s.Fn
+	saved := bp.goalValues
+	bp.goalValues = []ssa.Value{s.Low, s.Upper}
+	if sl, ok := s.Buf.(*ssa.Slice); ok {
+		bp.goalValues = append(bp.goalValues, sl.Low, sl.High)
+	}
+	defer func() { bp.goalValues = saved }()
 	env := newLinEnv()
 	facts := bp.factsAtPoint(f, s.Instr.Block(), nil, env)
 	goal := s.goalOf(env)
@@ -805,7 +1347,7 @@ func (bp *boundsProver) prove(s *boundSite) {
 		return
 	}
 	// caller-established precondition: the goal mentions only parameters of an unexported function
-	if bp.proveByCallers(s) {
+	if bp.proveByCallers(s) || bp.proveByCallersSubst(s) {
 		s.Proven, s.Why = true, "established by every caller"
 		return
 	}
@@ -918,7 +1460,7 @@ func (bp *boundsProver) proveByCallers(s *boundSite) bool {
 			site.Upper = base
 			site.UpperK += k
 		}
-		if s.Kind == "slice-order" {
+		if s.Kind == "slice-order" || s.Kind == "index-low" {
 			site.LowK = s.LowK
 			if s.Low != nil {
 				l := get(lowIdx)
@@ -975,7 +1517,12 @@ func (bp *boundsProver) proveInductive(s *boundSite) bool {
 		return false
 	}
 	if in, ok := s.Buf.(ssa.Instruction); ok && s.Kind != "slice-order" && !in.Block().Dominates(h) {
-		return false
+		// a load of a memory cell that is not written anywhere from the loop header to the load denotes one value
+		// for the whole loop
+		key, isCell := cellEpoch(s.Buf)
+		if !isCell || !strings.HasSuffix(key, "@"+cellVersionAt(s.Buf, h)) {
+			return false
+		}
 	}
 	f := s.Fn
 	for i, pred := range h.Preds {
@@ -1003,6 +1550,15 @@ func (bp *boundsProver) proveInductive(s *boundSite) bool {
 
 // lenOfAny: len of a slice or string value.
 func (e *linEnv) lenOfAny(v ssa.Value) *linExpr {
+	if e.subst != nil {
+		if r, ok := e.subst[v]; ok {
+			saved := e.subst
+			e.subst = nil
+			res := e.lenOfAny(r)
+			e.subst = saved
+			return res
+		}
+	}
 	if _, isSlice := v.Type().Underlying().(*types.Slice); isSlice {
 		return e.lenOf(v)
 	}
@@ -1056,9 +1612,8 @@ func (bp *boundsProver) predicateMinLen(g *ssa.Function) int64 {
 		facts := bp.factsAtPoint(g, rp.Block, extra, env)
 		k := int64(0)
 		for try := int64(8); try >= 1; try-- {
-			goal := newLin()
-			goal.c = try
-			goal = goal.add(env.lenOfAny(g.Params[0]), -1)
+			goal := newLin().add(env.lenOfAny(g.Params[0]), -1)
+			goal.c += try
 			if env.entailsLin(facts, goal) {
 				k = try
 				break
@@ -1073,4 +1628,671 @@ func (bp *boundsProver) predicateMinLen(g *ssa.Function) int64 {
 	}
 	bp.predK[g] = best
 	return best
+}
+
+// cellEpoch: for a load of a local memory cell (an Alloc or a field of one) or of a field of a pointer parameter,
+// a key that is equal for two loads exactly when no instruction that may write the cell lies between the point the key
+// names and either load: the latest store to the cell in the load's block (or a chain of single predecessors), else
+// the entry of the first block with several predecessors on the way back.
+// cellOf decomposes a load into (base, field path): base is a non-escaping local Alloc, or a pointer Parameter with
+// at least one field selected.
+func cellOf(v ssa.Value) (ld *ssa.UnOp, base ssa.Value, path string, ok bool) {
+	ld, isLd := v.(*ssa.UnOp)
+	if !isLd || ld.Op != token.MUL {
+		return nil, nil, "", false
+	}
+	addr := ld.X
+	for depth := 0; depth < 4; depth++ {
+		switch t := addr.(type) {
+		case *ssa.FieldAddr:
+			path = fmt.Sprintf(".%d%s", t.Field, path)
+			addr = t.X
+			continue
+		case *ssa.Alloc:
+			if t.Heap {
+				return nil, nil, "", false
+			}
+			base = t
+		case *ssa.Parameter:
+			if path == "" {
+				return nil, nil, "", false
+			}
+			base = t
+		}
+		break
+	}
+	if base == nil {
+		return nil, nil, "", false
+	}
+	return ld, base, path, true
+}
+
+func cellEpoch(v ssa.Value) (string, bool) {
+	ld, base, path, ok := cellOf(v)
+	if !ok {
+		return "", false
+	}
+	return cellKeyAt(ld.Parent(), base, path, ld.Block(), instrIndex(ld)), true
+}
+
+// cellKeyAt: the memory version of cell (base, path) just before instruction idx of block blk in fn.
+func cellKeyAt(fn *ssa.Function, base ssa.Value, path string, blk *ssa.BasicBlock, idx int) string {
+	_, isParam := base.(*ssa.Parameter)
+	var fields []*types.Var
+	if isParam {
+		fields = pathFields(base, path)
+	}
+	mayWrite := func(in ssa.Instruction) bool {
+		switch t := in.(type) {
+		case *ssa.Store:
+			a := t.Addr
+			spath := ""
+			for d := 0; d < 4; d++ {
+				if a == base {
+					// a store to the cell itself, to the field that is loaded, or to a struct containing / contained in it
+					return spath == "" || path == "" || strings.HasPrefix(path, spath) || strings.HasPrefix(spath, path)
+				}
+				if fa, ok := a.(*ssa.FieldAddr); ok {
+					spath = fmt.Sprintf(".%d%s", fa.Field, spath)
+					a = fa.X
+					continue
+				}
+				break
+			}
+			return false
+		case ssa.CallInstruction:
+			cn := calleeNameSSA(t.Common())
+			if strings.HasPrefix(cn, "builtin.") || strings.HasPrefix(cn, "strings.") || strings.HasPrefix(cn, "strconv.") {
+				return false
+			}
+			if isParam {
+				// the callee may reach the pointed-to object: ask the type-based may-write oracle
+				if theModOracle != nil && !theModOracle.callMayWrite(fn, t.Common(), fields) {
+					return false
+				}
+				return true
+			}
+			// a local cell: only when its address is handed over
+			for _, a := range t.Common().Args {
+				x := a
+				for d := 0; d < 4; d++ {
+					if x == base {
+						return true
+					}
+					if fa, ok := x.(*ssa.FieldAddr); ok {
+						x = fa.X
+						continue
+					}
+					break
+				}
+			}
+			return false
+		}
+		return false
+	}
+	// memory versions of the cell (a per-cell memory SSA): every may-write instruction starts a new version; a block
+	// whose predecessors end in different versions starts a version of its own (a memory phi). Two loads in the same
+	// version read the same value.
+	ck := fmt.Sprintf("%p/%p%s", fn, base, path)
+	inV, ok2 := versionCache[ck]
+	if !ok2 {
+		inV = map[*ssa.BasicBlock]string{}
+		outV := map[*ssa.BasicBlock]string{}
+		if len(fn.Blocks) > 0 {
+			inV[fn.Blocks[0]] = "entry"
+		}
+		for iter := 0; iter < 4*len(fn.Blocks)+8; iter++ {
+			changed := false
+			for _, b := range fn.Blocks {
+				v := inV[b]
+				if b != fn.Blocks[0] {
+					v = ""
+					same := true
+					for _, p := range b.Preds {
+						ov, known := outV[p]
+						if !known {
+							continue // not yet computed (back edge): optimistic
+						}
+						if v == "" {
+							v = ov
+						} else if v != ov {
+							same = false
+						}
+					}
+					if v == "" {
+						continue // no predecessor computed yet
+					}
+					if !same {
+						v = fmt.Sprintf("phi@%p", b)
+					}
+				}
+				if inV[b] != v {
+					inV[b] = v
+					changed = true
+				}
+				o := v
+				for _, x := range b.Instrs {
+					if mayWrite(x) {
+						o = fmt.Sprintf("def@%p", x)
+						defInstrs[fmt.Sprintf("%p", x)] = x
+					}
+				}
+				if outV[b] != o {
+					outV[b] = o
+					changed = true
+				}
+			}
+			if !changed {
+				break
+			}
+		}
+		versionCache[ck] = inV
+		versionOut[ck] = outV
+	}
+	for i := idx - 1; i >= 0; i-- {
+		if mayWrite(blk.Instrs[i]) {
+			defInstrs[fmt.Sprintf("%p", blk.Instrs[i])] = blk.Instrs[i]
+			return fmt.Sprintf("%p%s@def@%p", base, path, blk.Instrs[i])
+		}
+	}
+	return fmt.Sprintf("%p%s@%s", base, path, inV[blk])
+}
+
+var versionCache = map[string]map[*ssa.BasicBlock]string{}
+
+// versionOut: the memory version of a cell at the end of each block (same keys as versionCache).
+var versionOut = map[string]map[*ssa.BasicBlock]string{}
+
+// versionDefs resolves a memory version of cell (fn, base, path) to the instructions that may have written the value
+// it denotes (memory phis are followed through the predecessors); ok is false when the value may also be the one the
+// cell had on entry to the function, or the version is unknown.
+func versionDefs(fn *ssa.Function, base ssa.Value, path string, ver string) (defs []ssa.Instruction, ok bool) {
+	ck := fmt.Sprintf("%p/%p%s", fn, base, path)
+	outV, known := versionOut[ck]
+	if !known {
+		return nil, false
+	}
+	seen := map[string]bool{}
+	ok = true
+	var walk func(v string)
+	walk = func(v string) {
+		if seen[v] || !ok {
+			return
+		}
+		seen[v] = true
+		switch {
+		case strings.HasPrefix(v, "def@"):
+			in, found := defInstrs[v[4:]]
+			if !found {
+				ok = false
+				return
+			}
+			defs = append(defs, in)
+		case strings.HasPrefix(v, "phi@"):
+			var blk *ssa.BasicBlock
+			for _, b := range fn.Blocks {
+				if fmt.Sprintf("phi@%p", b) == v {
+					blk = b
+				}
+			}
+			if blk == nil {
+				ok = false
+				return
+			}
+			for _, p := range blk.Preds {
+				ov, has := outV[p]
+				if !has {
+					ok = false
+					return
+				}
+				walk(ov)
+			}
+		default:
+			ok = false
+		}
+	}
+	walk(ver)
+	return defs, ok
+}
+
+// defInstrs: the instruction that starts a memory version named def@<ptr>.
+var defInstrs = map[string]ssa.Instruction{}
+
+// forwardedStore: when the memory version of cell (base, path) named by key was started by a store to exactly that
+// cell, the value stored (every load in that version reads it).
+func forwardedStore(key string, base ssa.Value, path string) (ssa.Value, bool) {
+	i := strings.LastIndex(key, "@def@")
+	if i < 0 {
+		return nil, false
+	}
+	st, ok := defInstrs[key[i+5:]].(*ssa.Store)
+	if !ok {
+		return nil, false
+	}
+	a := st.Addr
+	spath := ""
+	for d := 0; d < 4; d++ {
+		if a == base {
+			return st.Val, spath == path
+		}
+		if fa, ok := a.(*ssa.FieldAddr); ok {
+			spath = fmt.Sprintf(".%d%s", fa.Field, spath)
+			a = fa.X
+			continue
+		}
+		break
+	}
+	return nil, false
+}
+
+
+// callFactRoots feeds the values that the facts and the current goal mention to visit (so that unconditional facts
+// about calls among them can be added).
+func (bp *boundsProver) callFactRoots(f *ssa.Function, blk *ssa.BasicBlock, visit func(ssa.Value, int)) {
+	for _, ft := range factsAt(f, blk) {
+		if b, ok := ft.Atom.(*ssa.BinOp); ok {
+			visit(b.X, 0)
+			visit(b.Y, 0)
+		}
+	}
+	for _, v := range bp.goalValues {
+		visit(v, 0)
+	}
+}
+
+// boolPost: g has the shape func(s string|[]byte, ...) (int, bool) and every return satisfies -1 <= result0 <= len(s).
+func (bp *boundsProver) boolPost(g *ssa.Function) bool {
+	if bp.boolP == nil {
+		bp.boolP = map[*ssa.Function]int{}
+	}
+	switch bp.boolP[g] {
+	case 1:
+		return true
+	case 2:
+		return false
+	}
+	bp.boolP[g] = 2
+	res := g.Signature.Results()
+	if len(g.Blocks) == 0 || len(g.Params) == 0 || res.Len() != 2 {
+		return false
+	}
+	if b, ok := res.At(0).Type().Underlying().(*types.Basic); !ok || b.Kind() != types.Int {
+		return false
+	}
+	if b, ok := res.At(1).Type().Underlying().(*types.Basic); !ok || b.Kind() != types.Bool {
+		return false
+	}
+	switch t := g.Params[0].Type().Underlying().(type) {
+	case *types.Basic:
+		if t.Info()&types.IsString == 0 {
+			return false
+		}
+	case *types.Slice:
+	default:
+		return false
+	}
+	n := 0
+	for _, rb := range g.Blocks {
+		ret, ok := rb.Instrs[len(rb.Instrs)-1].(*ssa.Return)
+		if !ok {
+			continue
+		}
+		n++
+		r0 := unspill(rb, ret)[0]
+		env := newLinEnv()
+		saved := bp.goalValues
+		bp.goalValues = []ssa.Value{r0}
+		facts := bp.factsAtPoint(g, rb, nil, env)
+		bp.goalValues = saved
+		up := env.lin(r0).add(env.lenOfAny(g.Params[0]), -1)
+		lo := newLin().add(env.lin(r0), -1)
+		lo.c--
+		okUp := env.entailsLin(facts, up)
+		okLo := env.entailsLin(facts, lo)
+		if !(okUp && okLo) {
+			// a returned loop counter: prove the bound as an invariant of its loop
+			site := &boundSite{Fn: g, Instr: ret, Buf: g.Params[0], Upper: r0, UpperK: 0, Kind: "slice-low"}
+			if !okUp && !bp.proveInductive(site) {
+				if os.Getenv("DEBUG_BOOLPOST") != "" {
+					fmt.Fprintf(os.Stderr, "boolPost %s: upper bound of %s not proven at %v\n", g.Name(), exprKeyPretty(r0), g.Prog.Fset.Position(ret.Pos()))
+				}
+				return false
+			}
+			if !okLo {
+				lower := &boundSite{Fn: g, Instr: ret, Buf: g.Params[0], Upper: r0, UpperK: 0, Low: nil, LowK: -1, Kind: "slice-order"}
+				if !bp.proveInductive(lower) {
+					if os.Getenv("DEBUG_BOOLPOST") != "" {
+						fmt.Fprintf(os.Stderr, "boolPost %s: lower bound of %s not proven at %v\n", g.Name(), exprKeyPretty(r0), g.Prog.Fset.Position(ret.Pos()))
+					}
+					return false
+				}
+			}
+		}
+	}
+	if n == 0 {
+		return false
+	}
+	bp.boolP[g] = 1
+	return true
+}
+
+// phiNonNeg: a loop counter that starts at a non-negative constant and only grows by non-negative constants.
+func phiNonNeg(phi *ssa.Phi) bool {
+	for _, e := range phi.Edges {
+		if k, ok := constIntOf(e); ok {
+			if k < 0 {
+				return false
+			}
+			continue
+		}
+		b, ok := e.(*ssa.BinOp)
+		if !ok || b.Op != token.ADD || b.X != ssa.Value(phi) {
+			return false
+		}
+		if k, ok := constIntOf(b.Y); !ok || k < 0 {
+			return false
+		}
+	}
+	return true
+}
+
+// coNonNeg: v is non-negative because every definition it can take is: constants >= 0, unsigned values, lengths, sums
+// and products of such, and phis all of whose incoming values are (assuming the phi itself on cycles). Overflow ignored.
+func coNonNeg(v ssa.Value, assumed map[ssa.Value]bool) bool {
+	if assumed[v] {
+		return true
+	}
+	if b, ok := v.Type().Underlying().(*types.Basic); ok && b.Info()&types.IsUnsigned != 0 {
+		return true
+	}
+	switch t := v.(type) {
+	case *ssa.Const:
+		k, ok := constIntOf(t)
+		return ok && k >= 0
+	case *ssa.Phi:
+		assumed[t] = true
+		for _, e := range t.Edges {
+			if !coNonNeg(e, assumed) {
+				return false
+			}
+		}
+		return true
+	case *ssa.BinOp:
+		if t.Op == token.ADD || t.Op == token.MUL {
+			return coNonNeg(t.X, assumed) && coNonNeg(t.Y, assumed)
+		}
+		if t.Op == token.QUO || t.Op == token.SHR || t.Op == token.REM || t.Op == token.AND {
+			return coNonNeg(t.X, assumed)
+		}
+	case *ssa.Convert:
+		return coNonNeg(t.X, assumed)
+	case *ssa.Call:
+		n := calleeNameSSA(&t.Call)
+		return n == "builtin.len" || n == "builtin.cap" || n == "builtin.copy"
+	}
+	return false
+}
+
+// cellVersionAt: the memory version of the cell loaded by ld at the entry of block b ("" when unknown).
+func cellVersionAt(ld ssa.Value, b *ssa.BasicBlock) string {
+	if _, ok := cellEpoch(ld); !ok {
+		return "?"
+	}
+	u := ld.(*ssa.UnOp)
+	var base ssa.Value
+	path := ""
+	addr := u.X
+	for depth := 0; depth < 4; depth++ {
+		if fa, ok := addr.(*ssa.FieldAddr); ok {
+			path = fmt.Sprintf(".%d%s", fa.Field, path)
+			addr = fa.X
+			continue
+		}
+		base = addr
+		break
+	}
+	ck := fmt.Sprintf("%p/%p%s", u.Parent(), base, path)
+	if inV, ok := versionCache[ck]; ok {
+		if v, ok := inV[b]; ok {
+			return v
+		}
+	}
+	return "?"
+}
+
+func hasSub(v ssa.Value, d int) bool {
+	if d > 6 {
+		return false
+	}
+	switch t := v.(type) {
+	case *ssa.BinOp:
+		if t.Op == token.SUB {
+			return true
+		}
+		return hasSub(t.X, d+1) || hasSub(t.Y, d+1)
+	case *ssa.Convert:
+		return hasSub(t.X, d+1)
+	case *ssa.Phi:
+		for _, e := range t.Edges {
+			if _, isPhi := e.(*ssa.Phi); !isPhi && hasSub(e, d+1) {
+				return true
+			}
+		}
+	}
+	return false
+}
+
+// proveByCallersSubst: the goal of a site in an unexported function, read over the function's parameters, is shown
+// at every call site with the arguments in place of the parameters (and no other value of the callee in the goal).
+func (bp *boundsProver) proveByCallersSubst(s *boundSite) bool {
+	f := s.Fn
+	if os.Getenv("DEBUGCALLERS") != "" {
+		fmt.Fprintf(os.Stderr, "callers-subst %s %s: enter inPre=%v\n", f.Name(), s.Kind, bp.inPre[f])
+	}
+	if f.Object() != nil && f.Object().Exported() {
+		return false
+	}
+	if bp.inPre[f] {
+		return false
+	}
+	// every leaf value of the goal is a parameter or a constant
+	okLeaves := true
+	var entryLoads []*ssa.UnOp
+	var walk func(v ssa.Value, d int)
+	walk = func(v ssa.Value, d int) {
+		if v == nil || d > 8 {
+			return
+		}
+		switch t := v.(type) {
+		case *ssa.Parameter, *ssa.Const:
+		case *ssa.BinOp:
+			walk(t.X, d+1)
+			walk(t.Y, d+1)
+		case *ssa.Convert:
+			walk(t.X, d+1)
+		case *ssa.Call:
+			if calleeNameSSA(&t.Call) == "builtin.len" {
+				walk(t.Call.Args[0], d+1)
+			} else {
+				okLeaves = false
+			}
+		case *ssa.UnOp:
+			// a field of a pointer parameter, read before the callee writes it: the caller's value at the call
+			if key, ok := cellEpoch(t); ok && strings.HasSuffix(key, "@entry") {
+				if _, base, _, _ := cellOf(t); base != nil {
+					if _, isP := base.(*ssa.Parameter); isP {
+						entryLoads = append(entryLoads, t)
+						return
+					}
+				}
+			}
+			okLeaves = false
+		default:
+			okLeaves = false
+		}
+	}
+	walk(s.Low, 0)
+	walk(s.Upper, 0)
+	if s.Kind != "slice-order" && s.Kind != "index-low" {
+		walk(s.Buf, 0)
+	}
+	if !okLeaves {
+		if os.Getenv("DEBUGCALLERS") != "" {
+			fmt.Fprintf(os.Stderr, "callers-subst %s %s: leaves not parameters\n", f.Name(), s.Kind)
+		}
+		return false
+	}
+	calls := bp.callers[f]
+	dbg := os.Getenv("DEBUGCALLERS") != ""
+	if len(calls) == 0 {
+		if dbg {
+			fmt.Fprintf(os.Stderr, "callers-subst %s %s: no callers\n", f.Name(), s.Kind)
+		}
+		return false
+	}
+	bp.inPre[f] = true
+	defer delete(bp.inPre, f)
+	for _, ci := range calls {
+		cc := ci.Common()
+		if cc.IsInvoke() || cc.StaticCallee() != f {
+			if dbg {
+				fmt.Fprintf(os.Stderr, "callers-subst %s %s: dynamic call in %s\n", f.Name(), s.Kind, ci.Parent().Name())
+			}
+			return false
+		}
+		g := ci.Parent()
+		env := newLinEnv()
+		saved := bp.goalValues
+		bp.goalValues = append([]ssa.Value{}, cc.Args...)
+		facts := bp.factsAtPoint(g, ci.(ssa.Instruction).Block(), nil, env)
+		bp.goalValues = saved
+		env.subst = map[ssa.Value]ssa.Value{}
+		for i, p := range f.Params {
+			if i < len(cc.Args) {
+				env.subst[p] = cc.Args[i]
+			}
+		}
+		// fields of pointer parameters read at the callee's entry are the caller's cells at the call
+		okCells := true
+		for _, ld := range entryLoads {
+			_, base, path, _ := cellOf(ld)
+			pi := -1
+			for i, p := range f.Params {
+				if p == base {
+					pi = i
+				}
+			}
+			if pi < 0 || pi >= len(cc.Args) {
+				okCells = false
+				break
+			}
+			cbase := cc.Args[pi]
+			switch cb := cbase.(type) {
+			case *ssa.Parameter:
+			case *ssa.Alloc:
+				if cb.Heap {
+					okCells = false
+				}
+			default:
+				okCells = false
+			}
+			if !okCells {
+				break
+			}
+			in := ci.(ssa.Instruction)
+			key := cellKeyAt(g, cbase, path, in.Block(), instrIndex(in))
+			if env.cells == nil {
+				env.cells = map[string]string{}
+			}
+			if bt, isB := ld.Type().Underlying().(*types.Basic); isB && bt.Info()&types.IsInteger != 0 {
+				if val, fw := forwardedStore(key, cbase, path); fw {
+					env.subst[ld] = val
+					continue
+				}
+			}
+			name, seen := env.cells[key]
+			if !seen {
+				name = fmt.Sprintf("%s~%d", exprKeyPretty(ld), len(env.names)+len(env.cells))
+				env.cells[key] = name
+			}
+			env.names[ld] = name
+		}
+		if !okCells {
+			if dbg {
+				fmt.Fprintf(os.Stderr, "callers-subst %s %s: cell base not a parameter/local in %s\n", f.Name(), s.Kind, g.Name())
+			}
+			return false
+		}
+		goal := s.goalOf(env)
+		// what the callee itself knows on the way to the site, read over the caller's values
+		bp.goalValues = []ssa.Value{s.Low, s.Upper}
+		calleeFacts := bp.factsAtPoint(f, s.Instr.Block(), nil, env)
+		bp.goalValues = saved
+		env.subst = nil
+		holds := func(fs []linFact) bool {
+			all := append(append([]linFact{}, fs...), calleeFacts...)
+			if env.entailsLin(all, goal) {
+				return true
+			}
+			// the site is not reached on this path: two of the facts contradict one another
+			return env.contradictory(all)
+		}
+		if holds(facts) {
+			continue
+		}
+		// a call below merge points (the body of `case a || b:`, the join after an inner if): every path into it on its own
+		cb := ci.(ssa.Instruction).Block()
+		var holdsAt func(blk *ssa.BasicBlock, extra []Fact, depth int, onPath map[*ssa.BasicBlock]bool) bool
+		holdsAt = func(blk *ssa.BasicBlock, extra []Fact, depth int, onPath map[*ssa.BasicBlock]bool) bool {
+			bp.goalValues = append([]ssa.Value{}, cc.Args...)
+			pf := bp.factsAtPoint(g, blk, extra, env)
+			bp.goalValues = saved
+			if holds(pf) {
+				return true
+			}
+			if dbg {
+				var fs []string
+				for _, f := range append(append([]linFact{}, pf...), calleeFacts...) {
+					fs = append(fs, f.lf.String())
+				}
+				fmt.Fprintf(os.Stderr, "  holdsAt %s block %d depth %d: facts %s | defs %v\n", g.Name(), blk.Index, depth, strings.Join(fs, " ; "), len(env.condDefs))
+			}
+			if depth >= 4 || len(blk.Preds) == 0 || onPath[blk] {
+				return false
+			}
+			for _, in := range blk.Instrs {
+				if _, isPhi := in.(*ssa.Phi); isPhi {
+					return false
+				}
+			}
+			onPath[blk] = true
+			defer delete(onPath, blk)
+			d := depth
+			if len(blk.Preds) > 1 {
+				d++
+			}
+			for _, pred := range blk.Preds {
+				ex := append([]Fact{}, extra...)
+				if ef, ok := edgeFact(pred, blk); ok {
+					ex = append(ex, ef)
+				}
+				if !holdsAt(pred, ex, d, onPath) {
+					return false
+				}
+			}
+			return true
+		}
+		if len(cb.Preds) > 0 && holdsAt(cb, nil, 0, map[*ssa.BasicBlock]bool{}) {
+			continue
+		}
+		if dbg {
+			var fs []string
+			for _, f := range facts {
+				fs = append(fs, f.lf.String())
+			}
+			fmt.Fprintf(os.Stderr, "callers-subst %s %s at %s: need %s; facts %s\n", f.Name(), s.Kind, g.Name(), goal.String(), strings.Join(fs, " ; "))
+		}
+		return false
+	}
+	return true
 }
